@@ -66,7 +66,7 @@ class Prop:
                          'established_never_loses', 'collision_survivor']
     correspondence_name = 'Model/Fsm.v peer_step vs daemon/src/fsm.rs PeerFsm::process (harness/daemon/fsm_hx.rs)'
     rule = ('cases = (local id/AS/hold/capabilities/send-max, expected AS, sequence of (role,input)); '
-            'quick: every sequence of length<=2 over a 26-letter alphabet appended to 14 state-reaching prefixes, plus seeded random sequences of length<=40; '
+            'quick: every sequence of length<=2 over a 32-letter alphabet appended to 14 state-reaching prefixes, plus seeded random sequences of length<=40; '
             'a case is non-trivial when some connection reaches OpenConfirm; distinct = distinct (config, trajectory of (active,passive) state pairs and output kinds)')
     exhaustive = {'quick': False, 'thorough': False}
     trusted_base = ['messages are abstracted to what fsm.rs inspects (OPEN: AS, id, hold time, capabilities; NOTIFICATION: code/subcode); '
@@ -119,7 +119,8 @@ class Prop:
     # ---- generation
     def configs(self, rng):
         cfgs = []
-        for lid, exp, lhold, ci in [(200, 65001, 90, 1), (200, 0, 0, 2), (100, 65001, 3, 3), (300, 65001, 65535, 0)]:
+        # the last configuration has an identifier with the top bit set: the collision rule compares unsigned 32-bit values
+        for lid, exp, lhold, ci in [(200, 65001, 90, 1), (200, 0, 0, 2), (100, 65001, 3, 3), (300, 65001, 65535, 0), (0x80000000, 65001, 90, 1)]:
             cfgs.append(dict(lid=lid, lasn=65000, lcap=CAPSETS[ci], lhold=lhold, exp=exp,
                              smax=[(IPV4, 4), (IPV6, 2)] if ci >= 2 else []))
         return cfgs
@@ -132,6 +133,8 @@ class Prop:
                    (r, mk_open(good, 100, 30, REMOTE_CAPSETS[1])),
                    (r, mk_open(good, 300, 0, REMOTE_CAPSETS[2])),
                    (r, mk_open(65009, 200, 180, REMOTE_CAPSETS[0])),
+                   (r, mk_open(good, 0x7fffffff, 30, REMOTE_CAPSETS[1])),
+                   (r, mk_open(good, 0x80000001, 30, REMOTE_CAPSETS[1])),
                    (r, KA), (r, UPD), (r, NOTIF(6, 2)), (r, REFRESH(IPV4)),
                    (r, ('kaexp',)), (r, ('holdexp',)), (r, ('disc',)), (r, ('admin',)), (r, ('updsent',))]
         return al
